@@ -62,12 +62,19 @@ def stored_over_limit(d):
     z, H = d.z, d.H
     count = {}
     lim = {}
+    recorded = {}
+    for s in d.srv.children(z.PLACEMENT):
+        for a in d.srv.children(z.path.placement(s)):
+            recorded[a] = recorded.get(a, 0) + 1
     for s in d.srv.children(z.PLACEMENT):
         if s not in H.servers:
             continue
         for a in d.srv.children(z.path.placement(s)):
             ha = H.apps.get(a)
-            if ha is None:
+            if ha is None or recorded[a] > 1 or a in getattr(d, 'planted_apps', ()):
+                # an instance recorded under two servers (planted: what a master of another version left behind) is
+                # C10's matter; its successor keeps one of the two records, which one is not for this count to say,
+                # and the record the harness planted is not a placement any scheduler decided
                 continue
             for level, node in oracles.ancestors(H, s):
                 key = (level, node, ha['affinity'])
